@@ -23,8 +23,18 @@ structure Inst where
   stochastic : Bool               -- `self.stochastic` (False: PCTSPEnv, True: SPCTSPEnv)
   pen        : Nat → Int          -- `td["penalty"]`
 
-/-- `real_prize = td["stochastic_prize"] if self.stochastic else td["deterministic_prize"]` -/
-def realPrize (i : Inst) : Nat → Int := if i.stochastic then i.stoPrize else i.detPrize
+/-- `real_prize = td["stochastic_prize"] if self.stochastic else td["deterministic_prize"]` (which key each
+branch reads is extracted from the source) -/
+def realPrize (i : Inst) : Nat → Int :=
+  if i.stochastic then (if Params.pctspStoBranchReadsSto then i.stoPrize else i.detPrize)
+  else (if Params.pctspDetBranchReadsDet then i.detPrize else i.stoPrize)
+
+/-- the prize row `_step` accumulates into `cur_total_prize`: `td["real_prize"]` (extracted; the alternative
+would be the expected prize shown to the policy, `td["expected_prize"] = td["deterministic_prize"]`) -/
+def stepPrize (i : Inst) : Nat → Int := if Params.pctspStepGathersReal then realPrize i else i.detPrize
+
+/-- the prize row the checker sums: `td["real_prize"]` (extracted) -/
+def checkPrize (i : Inst) : Nat → Int := if Params.pctspCheckGathersReal then realPrize i else i.detPrize
 
 structure State where
   cur    : Nat                  -- `current_node`
@@ -56,7 +66,7 @@ def mask (i : Inst) (s : State) (a : Nat) : Bool :=
 /-- `_step` -/
 def step (i : Inst) (s : State) (a : Nat) : State :=
   { cur := a
-    tot := s.tot + padded (realPrize i) a
+    tot := s.tot + padded (stepPrize i) a
     penTot := s.penTot + padded i.pen a
     vis := upd s.vis a true
     i := s.i + 1
@@ -98,7 +108,7 @@ value of `1e-5`. -/
 def check (i : Inst) (tol : Int) (as : List Nat) : Bool :=
   as.all (fun a => decide (a ≤ i.n)) &&
   adjOk (sortNat as) &&
-  (Params.pctspCheckPrizeCmp.eval (gatherSum (realPrize i) as) (checkReq i - tol) ||
+  (Params.pctspCheckPrizeCmp.eval (gatherSum (checkPrize i) as) (checkReq i - tol) ||
     decide (as.length - as.count 0 = i.n))
 
 end Rl4co.Pctsp
